@@ -435,3 +435,24 @@ Example C09_hypotheses_satisfiable (F : rcfType) (tol brk : F) :
         (forall X, cv 2 (g_mm (exG tol brk) X) 0 = mx_of 2 2 (exA F) *m cv 2 X 0)
         /\ (mx_of 2 2 (exA F))^T = mx_of 2 2 (exA F)].
 Proof. exact: ex_satisfiable. Qed.
+
+(* Non-vacuity of the breakdown clause of theorem 14: A = I_2, start e_1, budget 2: beta_0 = 0 but m = 2 (with two
+   iterations the loop has no break test), so w = 1 < m, T[0][1] = 0 and all other hypotheses hold. *)
+Example C09_breakdown_prefix_satisfiable (F : rcfType) (tol brk : F) :
+  exists o,
+    [/\ lanczos_tridiag (ArR F) (exG2 tol brk) = Ok o /\ lz_start (exG2 tol brk) = Ok (1%N, exInit F),
+        (0 < size (o_Q o))%N /\ (0 < 1 <= o_m o)%N /\ (1 < o_m o)%N,
+        cv 2 (exInit F) (col_of (prodn (g_batch (exG2 tol brk))) 1 0) != 0,
+        mget (ArR F) (nth [::] (o_T o) 0) 0 1 = 0 &
+        (forall X, cv 2 (g_mm (exG2 tol brk) X) 0 = mx_of 2 2 (exI F) *m cv 2 X 0)
+        /\ (mx_of 2 2 (exI F))^T = mx_of 2 2 (exI F)].
+Proof. exact: ex_breakdown_satisfiable. Qed.
+
+(* Non-vacuity of theorem 16: a probe whose inverse root solves the test systems exactly (A = R = V = [1]). *)
+Example C09_exact_on_tests_satisfiable (F : rcfType) :
+  exact_on_tests 1 1 1 [:: [:: [:: 1 : F]]] [:: [:: [:: 1 : F]]] [:: [:: [:: 1 : F]]].
+Proof.
+move=> [|b] // _; apply/matrixP => i j.
+rewrite !ord1 !mxE !big_ord1 !mxE !big_ord1 !mxE /mget /=.
+by rewrite big_ord1 !mxE /mget /= !mul1r.
+Qed.
